@@ -129,6 +129,10 @@ def _bind(fd, call, skip_self, temps=None, tail=False):
     if stored:
         if temps is None:
             return None
+        # `p += x` may be an in-place update of the caller's object (a bytearray handed in) or a re-binding (a number):
+        # not told apart here, such helpers are left alone
+        if any(isinstance(n, ast.AugAssign) and isinstance(n.target, ast.Name) and n.target.id in stored for n in ast.walk(fd)):
+            return None
         for p_ in stored:
             if tail and isinstance(m[p_], ast.Name):
                 # tail call with the caller's own variable as argument: that variable is dead after the call, the
@@ -2055,6 +2059,7 @@ class Inliner:
                             if m is not None:
                                 hlocals = {n.id for s_ in hb for n in ast.walk(s_) if isinstance(n, ast.Name)
                                            and isinstance(n.ctx, (ast.Store, ast.Del))}
+                                hlocals -= {a_.arg for a_ in h.args.args}      # (parameters are bound by the call, not renamed)
                                 used = {n.id for n in ast.walk(fd) if isinstance(n, ast.Name)} | {a.arg for a in fd.args.args}
                                 ren = {}
                                 for nm in hlocals:
@@ -2104,6 +2109,7 @@ class Inliner:
                         if m is not None and isinstance(st, ast.Return):
                             used = {n.id for n in ast.walk(fd) if isinstance(n, ast.Name)} | {a.arg for a in fd.args.args}
                             hlocals = {n.id for s_ in hb for n in ast.walk(s_) if isinstance(n, ast.Name) and isinstance(n.ctx, (ast.Store, ast.Del))}
+                            hlocals -= {a_.arg for a_ in h.args.args}      # (parameters are bound by the call, not renamed)
                             lst = "result"
                             k = 0
                             while lst in used | hlocals:
@@ -2162,6 +2168,7 @@ class Inliner:
                                     out.append(ast.copy_location(t_, st))
                                 hlocals = {n.id for s_ in hb for n in ast.walk(s_) if isinstance(n, ast.Name)
                                            and isinstance(n.ctx, (ast.Store, ast.Del))}
+                                hlocals -= {a_.arg for a_ in h.args.args}      # (parameters are bound by the call, not renamed)
                                 used = {n.id for n in ast.walk(fd) if isinstance(n, ast.Name)} | {a.arg for a in fd.args.args}
                                 ren = {}
                                 for nm in hlocals:
@@ -2203,6 +2210,7 @@ class Inliner:
                             if m is not None:
                                 hlocals = {n.id for s_ in hb for n in ast.walk(s_) if isinstance(n, ast.Name)
                                            and isinstance(n.ctx, (ast.Store, ast.Del))}
+                                hlocals -= {a_.arg for a_ in h.args.args}      # (parameters are bound by the call, not renamed)
                                 used = {n.id for n in ast.walk(fd) if isinstance(n, ast.Name)} | \
                                        {a.arg for a in fd.args.args}
                                 # `(a, b) = helper()` where the helper ends in `return (a, b)`: same names, no renaming
